@@ -56,6 +56,9 @@ def applyOp (env : Env) (t : Tmpl) (rows : List RowV) (ts : List String) : StepR
   | "cm" :: rest => create (Dyn.parse? (" ".intercalate rest))
   | "cs" :: rest => create (Dyn.parse? (" ".intercalate rest))
   | ["cj", h] => create ((unhexTok h).map Dyn.str)
+  -- the next line of a long-lived importer of the template: a fresh row filled from the text, exactly
+  -- what CreateRow(text) gives, whatever lines (accepted or rejected) the importer read before
+  | ["imp", h] => create ((unhexTok h).map Dyn.str)
   | ["cr", i] =>
     (match i.toNat?.bind fun i => rows[i]? with
      | some r => create (some (.val (.row (Members.ofList r))))
@@ -108,7 +111,19 @@ def applyOp (env : Env) (t : Tmpl) (rows : List RowV) (ts : List String) : StepR
 def splitObs (ob : String) : Option (String × List String) :=
   match ob.splitOn " | " with
   | [_, p, rs] => some (p, if rs == "none" then [] else rs.splitOn " ;; ")
+  | [_, p, rs, _] => some (p, if rs == "none" then [] else rs.splitOn " ;; ")
   | _ => none
+
+/-- The optional 4th field of an `imp` step: what the same text gives through CreateRow on its own. -/
+def freshOf (ob : String) : Option String :=
+  match ob.splitOn " | " with
+  | [_, _, _, f] => if f.startsWith "fresh=" then some (dropS f 6) else none
+  | _ => none
+
+def withoutFresh (ob : String) : String :=
+  match ob.splitOn " | " with
+  | [a, b, c, _] => a ++ " | " ++ b ++ " | " ++ c
+  | _ => ob
 
 def runCase (tmplS opsS extS obsS : String) : Result := Id.run do
   let env : Env := ⟨genTables, parseExt extS⟩
@@ -139,7 +154,15 @@ def runCase (tmplS opsS extS obsS : String) : Result := Id.run do
             for idx in List.range prs.length do
               if some idx != touched && crs[idx]? != prs[idx]? then p := some s!"other-row-changed"
         | _, _ => pure ()
-        let d := ms != ob
+        -- a row handed out by a long-lived importer is what its line gives on its own
+        match freshOf ob, cur with
+        | some f, some (_, crs) =>
+          let accepted := (ob.splitOn " | ").head? == some "e=-"
+          if accepted && f == "ERR" then p := some "importer-accepted-what-the-text-alone-rejects"
+          else if !accepted && f != "ERR" then p := some "importer-rejected-what-the-text-alone-accepts"
+          else if accepted && crs.getLast? != some f then p := some "imported-row-depends-on-earlier-lines"
+        | _, _ => pure ()
+        let d := ms != withoutFresh ob
         if d || p.isSome then
           let tag := (if d then "D" else "") ++ (if p.isSome then "P" else "")
           return ⟨tag, s!"step {stepNo} [{os}] impl [{ob}] model [{ms}]" ++
